@@ -69,10 +69,21 @@ class RenderStream(Stream):
 
     def cases(self, ctx):
         rng = ctx.rng_for("render")
-        return [gen_program(rng.fork(str(i))) for i in range(ctx.scale(2500, 40000))]
+        out = []
+        for i in range(ctx.scale(2500, 40000)):
+            p = gen_program(rng.fork(str(i)))
+            # tolerance modes too: the render loops consult the mode on both paths (seeded change C03-1)
+            p["mode"] = rng.choice(["strict", "strict", "lax", "warn"])
+            if p["mode"] != "strict" and rng.chance(40):
+                from ..gen.templates import malform
+
+                p["source"] = malform(rng, p["source"])
+            out.append(p)
+        return out
 
     def impl(self, case):
-        return {"sync": render_sync(case), "async": render_async(case)}
+        m = case.get("mode")
+        return {"sync": render_sync(case, mode=m), "async": render_async(case, mode=m)}
 
     def oracle(self, case, obs):
         if not _eq(obs["sync"], obs["async"]):
@@ -85,7 +96,7 @@ class RenderStream(Stream):
 
     def tags(self, case, obs):
         s = obs["sync"]
-        t = ["ok" if "ok" in s else "err:" + s["err"]]
+        t = ["ok" if "ok" in s else "err:" + s["err"], "mode:" + str(case.get("mode") or "strict")]
         if case["extra"]:
             t.append("extra")
         if case["partials"]:
@@ -186,7 +197,7 @@ class ResidualStream(RenderStream):
                         data["x"] = rng.choice([42, "a", "user", None, 1.5, ["a"]])
                     if rng.chance(40):
                         data["t"] = rng.choice(["p", "dir/q", "nosuch", 5])
-                    out.append({"source": src, "partials": RESIDUAL_PARTIALS, "data": data, "flags": gen_flags(rng), "extra": extra, "autoescape": rng.chance(20)})
+                    out.append({"source": src, "partials": RESIDUAL_PARTIALS, "data": data, "flags": gen_flags(rng), "extra": extra, "autoescape": rng.chance(20), "mode": rng.choice(["strict", "strict", "lax", "warn"])})
         return out
 
 
